@@ -30,6 +30,10 @@ pub(crate) mod profiler;
 
 pub(crate) mod observability;
 
+/// Verification facade (only with `--cfg rzmq_verif`).
+#[cfg(rzmq_verif)]
+pub mod verif;
+
 #[cfg(feature = "io-uring")]
 pub mod io_uring_backend;
 #[cfg(feature = "io-uring")]
